@@ -48,6 +48,7 @@ def valid_line(ps, outs):
 
 def run(ctx):
     ctx.check_props()
+    gen_fail = ctx.genlink_goarith("GoLinkC05")    # the Go arithmetic / constants are re-translated from the source and the GEN_* theorems re-checked
     model = ctx.build_model()
     vh = ctx.build_harness()
     if ctx.replay:
@@ -117,6 +118,7 @@ def run(ctx):
             report("Create did not refuse: %s -> %s" % (what, i[:80]), {"lines": [line], "impl": i[:800], "model": m[:800], "class": {"refuse": what}})
         elif L.canon(i, "mem") != L.canon(m, "mem"):
             report("Create refusal differs from the model: %s impl=%s model=%s" % (what, i[:80], m[:80]), {"lines": [line], "impl": i[:800], "model": m[:800], "class": {"refuse": what}}, nf=True)
+    ctx.report_genlink(gen_fail, "GoLinkC05")
     return ctx.finish(
         "proof",
         rule="input sets with names in sub-directories and of lengths not divisible by 4, sizes around the slice size and around 16384 bytes, 1-12 files, slice sizes 4/8/64/2000, recovery-block counts 1,2,3,4,7,8,16,100,300, >256 slices, a 300-byte relative name, goroutines 1-7, in memory and on a real directory; each set's output files are judged by the extracted specification-side validator (valid_set) and compared byte for byte with the model writer; plus the inputs Create must refuse; non-trivial = at least two files or two slices",
